@@ -425,12 +425,18 @@ func c10Tasks(tier string) []Task {
 		}
 		return c
 	}
+	l0, b0, dbL0, dbB0 := l, b, dbL, dbB
 	for u := range c10Universes {
 		u := u
 		c10SetUniverse(u)
 		umax := maxKeys
+		l, b, dbL, dbB := l0, b0, dbL0, dbB0
 		if u > 0 && tier != "thorough" {
 			umax = 2
+		}
+		if u > 0 && tier == "thorough" {
+			// the byte-edge universe: all 64 subsets at the quick tier's sequence lengths (the deep levels are universe 0's)
+			l, b, dbL, dbB = 3, 2, 3, 2
 		}
 		for mask := 0; mask < 64; mask++ {
 			if popcnt(mask) > umax {
